@@ -133,7 +133,7 @@ def run(case):
 
 
 def strategy(tier):
-    return drive.st_dw_case(tier=tier, scales=True)
+    return drive.st_dw_case(tier=tier, scales=True, bounds_forms=True)
 
 
 def selftest():
